@@ -53,7 +53,7 @@ def checksum(number):
 def validate(number):
     """Check if the number is a valid banknote serial number."""
     number = compact(number)
-    if not number[:2].isalnum() or not isdigits(number[2:]):
+    if any(x not in '0123456789ABCDEFGHIJKLMNOPQRSTUVWXYZ' for x in number[:2]) or not isdigits(number[2:]):
         raise InvalidFormat()
     if len(number) != 12:
         raise InvalidLength()
